@@ -82,7 +82,10 @@ RPC_CODES = [0, 1, -1, -32700, -32600, -32601, -32602, -32603, -32000, -32099, -
 RPC_MESSAGES = ['', 'm', 'Ünï©ode \U0001F600', 'with "quotes" and \\ backslash\n']
 RPC_DATA = ['__absent__', None, 0, '', [], {}, False, {'k': [1, {'n': None}]}, 10 ** 30, 'text']
 EXC_KINDS = ['ValueError', 'KeyError', 'TypeError', 'AssertionError', 'RuntimeError', 'ZeroDivisionError',
-             'LookupError', 'OSError', 'StopIteration', 'Xq9ErrorCustom', 'Xq9ErrorSub']
+             'LookupError', 'OSError', 'StopIteration', 'Xq9ErrorCustom', 'Xq9ErrorSub', 'TimeoutError', 'ConnectionError',
+             'Xq9Timeout', 'NotImplementedError', 'UnicodeError', 'RecursionError', 'ArithmeticError', 'AttributeError',
+             'IndexError', 'StopAsyncIteration', 'BufferError', 'PjBaseError', 'PjDeserializationError', 'PjIdentityError',
+             'PjValidationError', 'JSONDecodeError', 'PjValidationErrorLive', 'ValueErrorLive']
 
 
 def typed_calls(rng: random.Random, full: bool) -> Iterator[Tuple[str, str, List[Any] | Dict[str, Any]]]:
@@ -265,6 +268,17 @@ def batches(rng: random.Random, max_exhaustive_len: int, sampled: int, max_len: 
             els[a]['id'] = 7
             els[b]['id'] = '7'
             yield 'batch-lookalike-ids', dumps(els), n
+    # two DIFFERENT ids each repeated, of the same and of different JSON types
+    for pair in ((1, 'a'), (0, ''), (1, '1'), (1, 2), ('a', 'b'), (-1, 10 ** 30)):
+        for order in ((0, 1, 0, 1), (0, 0, 1, 1), (0, 1, 1, 0)):
+            els = [make_element('call_ok', p) for p in range(4)]
+            for p, which in enumerate(order):
+                els[p]['id'] = pair[which]
+            yield 'batch-two-duplicated-ids', dumps(els), 4
+        els = [make_element('call_ok', p) for p in range(5)]
+        for p, v in enumerate((pair[0], pair[1], 9, pair[0], pair[1])):
+            els[p]['id'] = v
+        yield 'batch-two-duplicated-ids', dumps(els), 5
     # lengths around the size limits used by the configurations (1 and 3)
     for n in (1, 2, 3, 4, 5):
         yield 'batch-size-boundary', dumps([make_element('call_ok', p) for p in range(n)]), n
